@@ -41,7 +41,8 @@ theorem C16c_pending_owned_once {c : Cfg} {s : State} (h : Reach c s) {t1 t2 : N
 nor sends a notification (stated explicitly, as in the sequential development). -/
 theorem C16c_overwrite_is_silent {c : Cfg} {s s' : State} {t : Nat} (h : step c s t .insMap = some s') :
     s'.notifs = s.notifs ∧ s'.removed = s.removed := by
-  simp only [step] at h
+  replace h := step_step0 h
+  simp only [step0] at h
   unfold stepInsMap at h
   split at h
   · simp at h; subst h; exact ⟨rfl, rfl⟩
@@ -50,10 +51,11 @@ theorem C16c_overwrite_is_silent {c : Cfg} {s s' : State} {t : Nat} (h : step c 
 /-- `clear` notifies nobody -/
 theorem C16c_clear_is_silent {c : Cfg} {s s' : State} {t : Nat} (h : step c s t .clear = some s') :
     s'.notifs = s.notifs := by
-  simp only [step] at h
+  replace h := step_step0 h
+  simp only [step0] at h
   unfold stepClear at h
   split at h
-  · simp at h; subst h; rfl
+  · simp at h; obtain ⟨_, h⟩ := h; subst h; rfl
   · simp at h
 
 /-- **Maintenance-lock discipline**: two threads inside a maintenance pass of the same shard are the
